@@ -173,6 +173,8 @@ def run(R, tier, seed, driver_ok):
                         X, y, fa = make_dataset(rng, name, d)
                         if name == 'RCA_Supervised':
                             est.set_params(**{k: v for k, v in zoo.fix_params(name, est.get_params(), X, y).items() if k in ('n_chunks', 'chunk_size')})
+                        if name == 'LSML' and len(fa[0]) >= 6:
+                            fa = (fa[0][:6],)       # (the same number of comparisons in every fit of a history: nothing sized by it may be carried over)
                         kw = {}
                         one_class = name == 'ITML' and rng.rand() < 0.3
                         if one_class:
@@ -382,6 +384,35 @@ def run(R, tier, seed, driver_ok):
             a, b = e1.components_, e2.components_
             if a.shape != b.shape or np.abs(a - b).max() > 1e-9 * max(np.abs(a).max(), 1e-300):
                 R.violation(f'{cls.__name__}/large-data/not-deterministic', f'{cls.__name__}(init={init!r}, n_components=3, random_state={sd}) on a {nL}×{dL} data set: a clone fitted on the same data differs (relative {np.abs(a - b).max() / max(np.abs(a).max(), 1e-300):.3g})', case)
+    # ---- an optional fit argument given in one fit and omitted in the next (weights of LSML, bounds of ITML, calibration
+    #      settings of the pairs learners): the second fit is the fit a fresh clone would do with the argument omitted
+    from metric_learn import LSML, ITML, MMC
+    for rep in range(3 if tier == 'quick' else 12):
+        d_ = int(rng.randint(2, 5)); Xo = rng.randn(30, d_) * (1 + rng.rand(d_))
+        q1 = rng.choice(30, size=(7, 4)); q2 = rng.choice(30, size=(7, 4))
+        q1 = q1[(q1[:, 0] != q1[:, 1]) & (q1[:, 2] != q1[:, 3])]; q2 = q2[(q2[:, 0] != q2[:, 1]) & (q2[:, 2] != q2[:, 3])]
+        m_ = min(len(q1), len(q2)); q1, q2 = q1[:m_], q2[:m_]
+        p1 = rng.choice(30, size=(10, 2)); p1 = p1[p1[:, 0] != p1[:, 1]]; yp1 = np.where(np.arange(len(p1)) % 2, 1, -1)
+        p2 = rng.choice(30, size=(10, 2)); p2 = p2[p2[:, 0] != p2[:, 1]]; yp2 = np.where(np.arange(len(p2)) % 2, 1, -1)
+        plans = [('LSML', lambda: LSML(max_iter=30), (Xo[q1],), dict(weights=rng.uniform(0.2, 5.0, size=m_)), (Xo[q2 if rep % 2 else q1],)),
+                 ('ITML', lambda: ITML(max_iter=30), (Xo[p1], yp1), dict(bounds=np.array([0.3, 4.0])), (Xo[p2 if rep % 2 else p1], yp2 if rep % 2 else yp1)),
+                 ('MMC', lambda: MMC(max_iter=5), (Xo[p1], yp1), dict(calibration_params={'strategy': 'max_tpr', 'min_rate': 0.6}), (Xo[p2 if rep % 2 else p1], yp2 if rep % 2 else yp1))]
+        for nm_, mk, a1, kw1, a2 in plans:
+            case = {'est': nm_, 'history': [f'fit(…, {", ".join(kw1)}=…)', 'fit(…) without it'], 'X': Xo}
+            R.case(('c17-optional-arg', nm_, rep, Xo.tobytes().hex()[:32]), True, sample={'est': nm_, 'optional': list(kw1)}, branch='optional-fit-argument-omitted')
+            try:
+                with warnings.catch_warnings():
+                    warnings.simplefilter('ignore')
+                    e1 = mk(); e1.fit(*a1, **kw1); e1.fit(*a2)
+                    e2 = mk(); e2.fit(*a2)
+            except Exception as e:
+                R.count(f'optional-fit-argument: {nm_} raised {type(e).__name__}'); continue
+            Ma, Mb = e1.get_mahalanobis_matrix(), e2.get_mahalanobis_matrix()
+            bad = np.abs(Ma - Mb).max() > 1e-9 * max(np.abs(Mb).max(), 1e-300)
+            if nm_ != 'LSML' and not bad:
+                bad = e1.threshold_ != e2.threshold_
+            if bad:
+                R.violation(f'{nm_}/refit-differs-from-fresh/optional-argument-omitted', f'{nm_}: a fit given {list(kw1)} followed by a fit without it differs from a fresh estimator fitted without it (max diff {np.abs(Ma - Mb).max():.3g})', case)
     R.extra['traces_validated_against_impl'] = R.evaluations
 
 
